@@ -460,9 +460,10 @@ TargetOff(x, t) ==
     [] t.k = "tab" -> CASE t.a = "strtab" -> mem.offs[Ix(x).str] [] t.a = "symtab" -> mem.offs[Ix(x).sym] [] t.a = "hash" -> mem.offs[Ix(x).hash]
                         [] t.a = "gnuhash" -> mem.offs[Ix(x).gnu]
                         [] t.a = "decoy" -> IF x.variant = "split" THEN mem.offs[Ix(x).decoy] ELSE mem.offs[Ix(x).str] + 2
+DtByCode == TLCEval([k \in DtKeys |-> RegByCode[k]])
 TagView(x, t) ==
   LET td == TagDigits(x, t) IN
-  <<WS(td), DtNamesOf(RegByCode, x.machine, x.osabi, td), W(ValDigits(x, mem.P, t)),
+  <<WS(td), DtNamesOf(DtByCode, x.machine, x.osabi, td), W(ValDigits(x, mem.P, t)),
     CASE t.k = "str" -> "s" [] IsPtr(t) -> "p" [] OTHER -> "v",
     CASE t.k = "str" -> NameSeq[t.a] [] IsPtr(t) -> <<TargetOff(x, t)>> [] OTHER -> <<>> >>
 \* the count is determined when a GNU table has a populated bucket (something is hashed) or a SysV table exists
